@@ -73,9 +73,11 @@ func validateRun(cmd *cobra.Command, args []string) error {
 	}
 
 	// If single argument that looks like inline SQL (not a file), validate it directly.
-	// The fast path has no strict mode: under --strict the regular validator below
+	// The fast path has no strict mode and prints text only: under --strict, and when a
+	// machine-readable report (json, sarif) is requested, the regular validator below
 	// handles the inline SQL (it accepts direct SQL input as well as file paths).
-	if len(args) == 1 && !validateStrict {
+	textOutput := validateOutputFormat == "" || validateOutputFormat == OutputFormatText
+	if len(args) == 1 && !validateStrict && textOutput {
 		if _, err := os.Stat(args[0]); err != nil && looksLikeSQL(args[0]) {
 			return validateInlineSQL(cmd, args[0])
 		}
